@@ -155,6 +155,48 @@ Theorem c02_conn_closes_v2 : forall dec unzip hd fuel s,
 Proof. exact conn_closes_v2. Qed.
 Print Assumptions c02_conn_closes_v2.
 
+(* the checksum sentence over whole streams and on the connection: any number of frames that
+   decode (e.g. whatever the encoder wrote: written_decodes_as_v1/_v2), then an accepted frame
+   with one bit flipped outside its length field, then ANY bytes — however chunked: the reader
+   pump delivers exactly the packets before the damage, closes the connection with a checksum
+   error, and neither the damaged frame nor anything behind it is delivered *)
+Theorem c02_stream_flip_v1 : forall dec unzip hd frames qs frame p0 i fuel s tail,
+  Forall2 (decodes_as (fun s => read_packet_v1 dec unzip hd s packet0)) frames qs ->
+  wf_bytes frame -> accepted (read_packet_v1 dec unzip hd [frame] p0) ->
+  16 <= i -> i < 8 * lenN frame ->
+  concat s = concat frames ++ flip_bit i frame ++ tail ->
+  (length frames < fuel)%nat ->
+  pump_v1 dec unzip hd fuel s = (qs, Closed EChecksum, snd (pump_v1 dec unzip hd fuel s)).
+Proof. exact stream_flip_v1. Qed.
+Print Assumptions c02_stream_flip_v1.
+
+Theorem c02_stream_flip_v2 : forall dec unzip hd frames qs frame p0 i fuel s tail,
+  Forall2 (decodes_as (fun s => read_packet_v2 dec unzip hd s packet0)) frames qs ->
+  wf_bytes frame -> accepted (read_packet_v2 dec unzip hd [frame] p0) ->
+  24 <= i -> i < 8 * lenN frame ->
+  concat s = concat frames ++ flip_bit i frame ++ tail ->
+  (length frames < fuel)%nat ->
+  pump_v2 dec unzip hd fuel s = (qs, Closed EChecksum, snd (pump_v2 dec unzip hd fuel s)).
+Proof. exact stream_flip_v2. Qed.
+Print Assumptions c02_stream_flip_v2.
+
+(* ... and with trailing bytes for a single read: the damaged frame is consumed, what follows stays *)
+Theorem c02_crc_single_bit_tail_v1 : forall dec unzip hd frame p0 i s p1 tail,
+  wf_bytes frame -> accepted (read_packet_v1 dec unzip hd [frame] p0) ->
+  16 <= i -> i < 8 * lenN frame -> concat s = flip_bit i frame ++ tail ->
+  r_out (read_packet_v1 dec unzip hd s p1) = Err EChecksum
+  /\ concat (r_rest (read_packet_v1 dec unzip hd s p1)) = tail.
+Proof. exact crc_flip_tail_v1. Qed.
+Print Assumptions c02_crc_single_bit_tail_v1.
+
+Theorem c02_crc_single_bit_tail_v2 : forall dec unzip hd frame p0 i s p1 tail,
+  wf_bytes frame -> accepted (read_packet_v2 dec unzip hd [frame] p0) ->
+  24 <= i -> i < 8 * lenN frame -> concat s = flip_bit i frame ++ tail ->
+  r_out (read_packet_v2 dec unzip hd s p1) = Err EChecksum
+  /\ concat (r_rest (read_packet_v2 dec unzip hd s p1)) = tail.
+Proof. exact crc_flip_tail_v2. Qed.
+Print Assumptions c02_crc_single_bit_tail_v2.
+
 (* ---------------------------------------------------------------------------------- *)
 (* non-vacuity: a frame the V1 decoder accepts (14-byte header + "hi", checksum computed by
    the model), the hypotheses of the flip and truncation theorems hold for it, and the model
@@ -176,6 +218,16 @@ Proof.
   - vm_compute. reflexivity.
   - vm_compute. reflexivity.
 Qed.
+
+(* the stream theorem computes: two good frames, a third with bit 77 flipped, garbage behind, in
+   5-byte chunks: two packets delivered, connection closed with a checksum error *)
+Example c02_stream_example :
+  let wire := ex_frame ++ ex_frame ++ flip_bit 77 ex_frame ++ [1; 2; 3; 4; 5; 6] in
+  let chunks := [firstn 5 wire; firstn 5 (skipn 5 wire); skipn 10 wire] in
+  let '(ds, e, _) := pump_v1 (fun b => b) (fun _ => None) false 5 chunks in
+  length ds = 2%nat /\ e = Closed EChecksum.
+Proof. vm_compute. split; reflexivity. Qed.
+
 
 (* ---------------------------------------------------------------------------------- *)
 (* tie to the source (C02/Source.v): codecV1.ReadHeadBody, codecV2.ReadHeadBody and ReadLenData
